@@ -190,22 +190,30 @@ ADVANCE = ("self.budget = math.floor(self.h_max / self.curr_depth)", "self.budge
 
 
 def check_handout_paths(ctx, winner):
+    """Every value-returning path of pull, with all expressions rendered in terms of the state pull was entered with (reads of
+    attributes written earlier on the path replaced by the written value, integer arithmetic folded, integer comparisons
+    brought to a canonical form): statement order, temporaries, flipped comparisons and merged branch tails do not matter."""
     model = ctx.model
     c = model.cls("SequOOL")
     q = "SequOOL.pull"
-    fn, params, paths, fns = CR.method_paths(model, "SequOOL", "pull")
+    fn, params, paths, fns = CR.method_paths(model, "SequOOL", "pull", entry=True)
     n_ret = 0
+    FLOOR = ("math.floor(self.h_max / (self.curr_depth + 1))", "self.h_max // (self.curr_depth + 1)",
+             "int(np.floor(self.h_max / (self.curr_depth + 1)))", "int(math.floor(self.h_max / (self.curr_depth + 1)))",
+             "np.floor(self.h_max / (self.curr_depth + 1))")
     for p in paths:
         rets = [e for e in p.events if e[0] == "ret"]
         if not rets:
             continue
         n_ret += 1
-        cd = dict(p.conds)
-        from ..routes import canon_cond
-        ccd = {}
-        for c0, pol0 in p.conds:
-            k0, v0 = canon_cond(c0, pol0)
-            ccd.setdefault(k0, v0)
+        cset = {CR.canon_int_cond(c0, pol0) for c0, pol0 in p.conds}
+
+        def query(src):
+            if CR.canon_int_cond(src, True) in cset:
+                return True
+            if CR.canon_int_cond(src, False) in cset:
+                return False
+            return None
         r = rets[0]
         label = "path [%s]" % " and ".join("%s%s" % ("" if pol else "not ", c0) for c0, pol in p.conds[-4:])
         if not r[1].endswith(".get_cpoint()"):
@@ -213,69 +221,60 @@ def check_handout_paths(ctx, winner):
             continue
         cell = r[1][: -len(".get_cpoint()")]
         calls = [e for e in p.events if e[0] in ("call", "loop-call")]
-        writes = [w for w in p.writes if not w[0].startswith("self.iteration")]
-        capped = ccd.get("self.h_max < self.curr_depth")
-        capped = None if capped is None else (not capped)
+        F = {k: v for k, v in p.sym.items() if k != "self.iteration"}
+        wtargets = [w[0] for w in p.writes if w[0] != "self.iteration"]
+        capped = query("self.curr_depth <= self.h_max")
         if capped is False:
-            ok = cell in ROOT and [w[0] for w in writes] == ["self.curr_node"] and writes[0][2] in ROOT and not calls
+            ok = cell in ROOT and set(wtargets) == {"self.curr_node"} and F.get("self.curr_node") in ROOT and not calls
             ctx.ob("R12-CAP", ok, c.file, q, label, "exhausted schedule: hands out the root's centre, stores it as the cell to credit, nothing else"
-                   if ok else "exhausted branch does more: writes %s, calls %s, returns %s" % ([w[1] for w in writes], [e[1] for e in calls], cell), r[3].lineno)
+                   if ok else "exhausted branch does more: state %s, calls %s, returns %s" % (F, [e[1] for e in calls], cell), r[3].lineno)
             continue
         if capped is not True:
             ctx.violation("R12-CAP", c.file, q, label, "a child is handed out on a path that is not under 'curr_depth <= h_max'", r[3].lineno)
             continue
-        # which cell is being opened on this path
-        at_root = cd.get("self.curr_depth == 0")
+        at_root = query("self.curr_depth == 0")
         parent = None
         for cand in (list(ROOT) if at_root else [winner]):
-            for suffix in (".get_children()[-1]", ".get_children()[self.loc - 1]"):
-                if cell == cand + suffix:
-                    parent = cand
+            if cell.startswith(cand + ".get_children()["):
+                parent = cand
         if parent is None:
             ctx.violation("R12-OPEN", c.file, q, label, "the cell handed out (%s) is not a child of the cell being opened (%s)" % (
                 cell, "the root" if at_root else winner), r[3].lineno)
             continue
         C = parent + ".get_children()"
-        last = cd.get("self.loc == len(%s) - 1" % C)
-        inrange = cd.get("self.loc < len(%s)" % C)
-        wcur = [w for w in writes if w[0] == "self.curr_node"]
-        wch = [w for w in writes if w[0] == "self.chosen[]"]
-        wloc = [w for w in writes if w[0] == "self.loc"]
-        wbud = [w for w in writes if w[0] == "self.budget"]
-        wdep = [w for w in writes if w[0] == "self.curr_depth"]
-        other = [w for w in writes if w[0] not in ("self.curr_node", "self.chosen[]", "self.loc", "self.budget", "self.curr_depth")]
+        last = query("self.loc == len(%s) - 1" % C)
+        inrange = query("self.loc < len(%s)" % C)
+        wch = [w for w in p.writes if w[0] == "self.chosen[]"]
+        other = [t for t in wtargets if t not in ("self.curr_node", "self.chosen[]", "self.loc", "self.budget", "self.curr_depth")]
         opens = [e for e in calls if e[1].endswith(".open")]
         othercalls = [e for e in calls if not e[1].endswith(".open") and not e[1].endswith(".make_children")]
-        ok = inrange is True and last is not None and len(wcur) == 1 and wcur[0][2] == cell and len(wch) == 1 and wch[0][2] == cell and \
-            ".append(" in wch[0][1] and not other and not othercalls
+        ok = inrange is True and last is not None and F.get("self.curr_node") == cell and len(wch) == 1 and wch[0][2] == cell and \
+            not other and not othercalls
         why = []
         if last is True:
-            ok = ok and cell == C + "[-1]" and len(wloc) == 1 and wloc[0][1].replace(" ", "") in ("self.loc=0",)
-            adv = [w[1] for w in wdep + wbud]
+            ok = ok and cell in (C + "[-1]", C + "[self.loc]", C + "[len(%s) - 1]" % C) and F.get("self.loc") == "0"
             if at_root:
-                ok = ok and not opens and len(wdep) == 1 and wdep[0][1] in ("self.curr_depth += 1",) and len(wbud) == 1 and wbud[0][1] in ADVANCE
+                ok = ok and not opens and F.get("self.curr_depth") == "self.curr_depth + 1" and F.get("self.budget") in FLOOR
                 why.append("root fully handed out: depth 1 begins with budget floor(h_max/1)")
             else:
-                ok = ok and len(opens) == 1 and opens[0][1] == parent + ".open" and wbud and wbud[0][1] == "self.budget -= 1"
-                used_up = cd.get("self.budget == 0 or num == 1", cd.get("num == 1 or self.budget == 0"))
+                ok = ok and len(opens) == 1 and opens[0][1] == parent + ".open"
+                used_up = query("self.budget == 1 or num == 1")
                 if used_up is True:
-                    ok = ok and len(wdep) == 1 and wdep[0][1] == "self.curr_depth += 1" and len(wbud) == 2 and wbud[1][1] in ADVANCE
+                    ok = ok and F.get("self.curr_depth") == "self.curr_depth + 1" and F.get("self.budget") in FLOOR
                     why.append("last child: cell marked opened, budget - 1, depth advances with a fresh budget")
                 elif used_up is False:
-                    ok = ok and not wdep and len(wbud) == 1
+                    ok = ok and "self.curr_depth" not in F and F.get("self.budget") == "self.budget - 1"
                     why.append("last child: cell marked opened, budget - 1")
                 else:
                     ok = False
                     why.append("no 'budget used up or no unopened cell left' test on this path")
         else:
-            ok = ok and cell == C + "[self.loc - 1]" and len(wloc) == 1 and wloc[0][1] == "self.loc += 1" and not opens and not wbud and not wdep
-            # the increment must come before the cell is designated (index loc, then loc + 1 ...)
-            seqw = [it for it in p.seq if it[0] == "w"]
-            ok = ok and [it[1] for it in seqw].index("self.loc") < [it[1] for it in seqw].index("self.curr_node")
-            why.append("earlier child: child counter + 1, hand out child[loc - 1]")
+            ok = ok and cell == C + "[self.loc]" and F.get("self.loc") == "self.loc + 1" and not opens and "self.budget" not in F and \
+                "self.curr_depth" not in F
+            why.append("earlier child: child counter + 1, hand out the child at the old counter")
         ctx.ob("R12-OPEN", ok, c.file, q, label, "; ".join(why) + ": credited cell, searched point and returned representative are the same child"
-               if ok else "hand-out step not as published: returns %s; writes %s; calls %s" % (cell, [w[1] for w in writes], [e[1] for e in calls]),
-               r[3].lineno)
+               if ok else "hand-out step not as published: returns %s; state after the step (in terms of the state before) %s; searched points += %s; calls %s" % (
+                   cell, F, [w[2] for w in wch], [e[1] for e in calls]), r[3].lineno)
     ctx.count("R12-OPEN value-returning paths of SequOOL.pull", n_ret, 5)
 
 
